@@ -272,6 +272,33 @@ mod verif_driver_compile {
         println!("VERIF-CASES fn=compile_tx_body n={n}");
     }
 
+    // C14: a transaction id of any length in an input / reference / collateral reference is an error, never a panic
+    // (a client can send a constant IR with arbitrary bytes there)
+    #[test]
+    fn txid_of_any_length_never_panics() {
+        let mut n = 0;
+        for len in [0usize, 1, 28, 31, 32, 33, 64] {
+            let r = tx3_tir::model::core::UtxoRef { txid: vec![7u8; len], index: 0 };
+            for place in ["input", "reference", "collateral"] {
+                n += 1;
+                let mut tx = empty_tx();
+                match place {
+                    "input" => tx.inputs = vec![tir::Input { name: "a".into(), utxos: tir::Expression::UtxoRefs(vec![r.clone()]), redeemer: tir::Expression::None }],
+                    "reference" => tx.references = vec![tir::Expression::UtxoRefs(vec![r.clone()])],
+                    _ => tx.collateral = vec![tir::Collateral { utxos: tir::Expression::UtxoRefs(vec![r.clone()]) }],
+                }
+                let res = quiet(|| compile_tx_body(&tx, Network::Testnet).map(|_| ()));
+                let f = match place { "input" => "compile_inputs", "reference" => "compile_reference_inputs", _ => "compile_collateral" };
+                match res {
+                    Err(p) => witness(&format!("c14_cardano/{f}#reachable-panic"), f, format!("{place} with a transaction id of {len} bytes class=txid-length"), format!("panic:{p}"), "Ok or Err"),
+                    Ok(Ok(())) => if len != 32 { witness(&format!("c14_cardano/{f}#postcondition"), f, format!("{place} with a transaction id of {len} bytes"), "Ok".into(), "a transaction id that is not 32 bytes is an error") },
+                    Ok(Err(_)) => {}
+                }
+            }
+        }
+        println!("VERIF-CASES fn=compile_inputs n={n}");
+    }
+
     #[test]
     fn metadata_text_never_panics() {
         let mut n = 0;
